@@ -66,7 +66,12 @@ const USIZES: [usize; 5] = [0, 1, 2, usize::MAX - 1, usize::MAX];
 const U64S: [u64; 5] = [0, 1, 2, u64::MAX - 1, u64::MAX];
 /// ordinary, blank inside, leading blank, and strings that need quoting AND escaping (they all
 /// contain a blank, so the known finding C06/unquoted-escape does not apply), empty, tab, non-ASCII
-const STRS: [&str; 8] = ["x", "a b", " lead", "a \"q\" b", "back \\ slash", "", "tab\tx", "\u{e9} \u{fc}"];
+const STRS: [&str; 12] = [
+    "x", "a b", " lead", "a \"q\" b", "back \\ slash", "", "tab\tx", "\u{e9} \u{fc}",
+    // round 6: a quote / backslash *before* the first blank (an encoder deciding from the first special byte),
+    // a blank only at the very end, and a blank only in the tail of a longer string
+    "Joe's mix", "b\\s first", "trail ", "Playlist 1",
+];
 
 fn durations() -> Vec<Duration> {
     vec![
@@ -536,8 +541,18 @@ pub fn run(tier: Tier) -> i32 {
     ctx.assume("the expectation table (command word, argument count / positions / meaning per constructor path) is written from the MPD protocol reference");
     ctx.assume("ranges are compared as sets of positions below usize::MAX (saturation at the maximum is accepted by the statement); strings with quotes/backslashes/control bytes belong to C06");
     ctx.assume("durations beyond f64's exact millisecond range are outside the domain");
-    let cases = all_cases(tier);
     let mut viol = Violations::default();
+    // a constructor or `command()` that panics (overflow checks are on in this build) is a verdict, not a
+    // crash of the check: the table is built inside catch, and a panic is reported with its message
+    let cases = match catch(|| all_cases(tier)) {
+        Ok(c) => c,
+        Err(msg) => {
+            viol.push(Violation::new("C15/panic", format!("building / rendering a predefined command panicked: {msg}"), json!({"what": "<panic while building the table>"})));
+            let mut cov = Coverage::default();
+            cov.rule = "the case table could not be built: a constructor panicked".to_string();
+            return finish(&ctx, cov, viol);
+        }
+    };
     let mut nontrivial = 0u64;
     let mut words = std::collections::BTreeSet::new();
     for cs in &cases {
@@ -553,7 +568,7 @@ pub fn run(tier: Tier) -> i32 {
     let mut cov = Coverage::default();
     cov.evaluations = cases.len() as u64;
     cov.distinct_nontrivial = nontrivial;
-    cov.rule = "every constructor / builder path of every predefined command x boundary values: integers {0,1,2,MAX-1,MAX}, every pair of range bounds from {unbounded, included, excluded} x {0,1,5,MAX-1,MAX} (incl. empty and inverted), 14 durations around the millisecond rounding points and beyond f32's resolution, every overwriting builder setter called twice and builders rendered / modified / rendered again (last value wins, no memory of earlier renderings), all enum variants, every string parameter over 8 strings (plain, blanks, leading blank, double quotes, backslash, empty, tab, non-ASCII), volumes 0..=255; non-trivial = cases with at least one argument".to_string();
+    cov.rule = "every constructor / builder path of every predefined command x boundary values: integers {0,1,2,MAX-1,MAX}, every pair of range bounds from {unbounded, included, excluded} x {0,1,5,MAX-1,MAX} (incl. empty and inverted), 14 durations around the millisecond rounding points and beyond f32's resolution, every overwriting builder setter called twice and builders rendered / modified / rendered again (last value wins, no memory of earlier renderings), all enum variants, every string parameter over 12 strings (plain, blanks, leading / trailing blank, double quotes, backslash, a quote or backslash before the first blank, empty, tab, non-ASCII), volumes 0..=255; non-trivial = cases with at least one argument".to_string();
     cov.states = cases.len() as u64;
     cov.transitions = cases.iter().map(|c| c.args.len() as u64 + 1).sum();
     cov.traces = cases.len() as u64;
@@ -567,7 +582,14 @@ pub fn run(tier: Tier) -> i32 {
 
 pub fn replay(case: &Value) -> i32 {
     let what = case["what"].as_str().unwrap_or("");
-    for cs in all_cases(Tier::Thorough) {
+    let cases = match catch(|| all_cases(Tier::Thorough)) {
+        Ok(c) => c,
+        Err(msg) => {
+            println!("replay: VIOLATION: building / rendering a predefined command panicked: {msg}");
+            return 1;
+        }
+    };
+    for cs in cases {
         if cs.what == what {
             println!("replay C15: {what}");
             return match check_case(&cs, true) {
